@@ -23,12 +23,12 @@ RULE = ('fault enumeration over the recorded step trace of the single-process an
         'quick tier. Steps: write_status, k-th molecule written, add_readgroups_to_header, replace_bam_header, pysam.sort, pysam.index, '
         'pysam.merge, os.rename, os.remove, shutil.move, shutil.rmtree, merge_bams, per-job run_tagging_tasks in the workers. '
         'Non-trivial = injected run in which the fault actually fired; distinct = distinct (configuration, fault point, kind).'
-        ' Plus persistent faults (every attempt of a step fails), exception classes RuntimeError / OSError / ValueError / MemoryError, and runs over the copied output (BAM, index, success marker) of an earlier run with faults in the set-up phase.')
+        ' Plus persistent faults (every attempt of a step fails), exception classes RuntimeError / OSError / ValueError / MemoryError, and runs over the copied output (BAM, index, success marker) of an earlier run with faults in the set-up phase; assemblies of >100 small and of >500 large contigs that all carry reads.')
 ASSUMPTIONS = ['failpoints sit at python-level step boundaries; a crash inside one htslib call is not split further',
                'a hung pool after a dead worker is killed by the watchdog and judged on the files it left (no liveness claim)',
                'the clean run must report success, otherwise the case is inconclusive']
 MIN_NONTRIVIAL = {'quick': 50, 'thorough': 1500}
-REQUIRED_MONITORS = ['trace:steps_recorded', 'fault:fired', 'fault:raise', 'fault:exit', 'fault:kill', 'fault:persistent', 'history:stale_success_of_earlier_run', 'layout:more_than_100_small_contigs', 'fault:class:OSError', 'fault:class:RuntimeError', 'oracle:status_read', 'oracle:success_verified',
+REQUIRED_MONITORS = ['trace:steps_recorded', 'fault:fired', 'fault:raise', 'fault:exit', 'fault:kill', 'fault:persistent', 'history:stale_success_of_earlier_run', 'layout:more_than_100_small_contigs', 'layout:more_than_500_large_contigs', 'layout:last_small_contig_holds_supplementary_records_only', 'fault:class:OSError', 'fault:class:RuntimeError', 'oracle:status_read', 'oracle:success_verified',
                      'clean:success', 'pipeline:single', 'pipeline:multi', 'fault:in_worker']
 SHARD_TIMEOUT = {'quick': 1200, 'thorough': 14400}
 SUCCESS = 'Reached end. All ok!'
@@ -48,7 +48,20 @@ def gen_cases(tier, seed):
     # an assembly with far more than a hundred small contigs that carry reads (one shared worker job): the fault-free run and a few faults
     for k, method in enumerate(('nla', 'chic') if tier == 'thorough' else (('nla', 'chic')[seed % 2],)):
         cases.append({'cfg': 90 + k, 'method': method, 'multi': True, 'size': 3, 'part': 0, 'parts': 1, 'seed': seed, 'tier': tier, 'many_contigs': True})
+    # a scaffold-level assembly: more than 500 contigs of >= 100 kb that all carry reads - one worker job and one intermediate file each
+    for k, method in enumerate(('nla', 'chic') if tier == 'thorough' else (('chic', 'nla')[seed % 2],)):
+        cases.append({'cfg': 95 + k, 'method': method, 'multi': True, 'size': 0, 'part': 0, 'parts': 1, 'seed': seed, 'tier': tier, 'many_contigs': True,
+                      'many_large': True})
     return cases
+
+
+class SparseGenome(F.Genome):
+    """contigs whose first 2 kb are random and whose remainder is filler: hundreds of 100 kb contigs without generating every base"""
+    def get(self, name):
+        if name not in self.seq:
+            ln = dict(self.refs)[name]
+            self.seq[name] = F.scrub_catg(F.rand_dna(self.r, min(ln, 2000)), self.r) + 'A' * max(0, ln - 2000)
+        return self.seq[name]
 
 
 def run_driver(spec, dd, tag, timeout=120):
@@ -101,6 +114,8 @@ def verify_output(out, expect_ids):
                 if last is not None and key < last:
                     srt = False
                 last = key
+                if a.is_secondary or a.is_supplementary:
+                    continue    # outside the claim: the mate pairing drops them
                 got[(F.id_from_name(a.query_name), 2 if a.is_read2 else 1)] += 1
     except Exception as ex:
         return False, f'output unreadable / truncated: {ex!r}'
@@ -128,16 +143,36 @@ def run_case(case):
     if case.get('many_contigs'):
         contigs = [('chr1', 120000)] + [(f'scaffold_{j}', 4000) for j in range(r.choice([120, 160]))]
         acc.count('layout:more_than_100_small_contigs')
-    gen, recs, truths = F.simulate_library(r, method=method, contigs=contigs, n_cells=2, n_sites=[2, 4, 8, 450][case['size']], umis_per_site=(1, 2),
-                                           copies=(1, 2), case_id=900 + case['cfg'], n_unmapped=[0, 1, 3, 3][case['size']],
-                                           p_invalid=0.1 if method == 'nla' else 0)
+    if case.get('many_large'):
+        contigs = [(f'scaffold_{j}', 100000 + (j % 3)) for j in range(r.choice([503, 510, 520]))]
+        acc.count('layout:more_than_500_large_contigs')
+        G0 = F.Genome
+        F.Genome = SparseGenome
+        try:
+            gen, recs, truths = F.simulate_library(r, method=method, contigs=contigs, n_cells=2, umis_per_site=(1, 1), copies=(1, 2), case_id=900 + case['cfg'],
+                                                   n_unmapped=2, site_positions=[(nm, 600 + 7 * (j % 50)) for j, (nm, _) in enumerate(contigs)])
+        finally:
+            F.Genome = G0
+    else:
+        gen, recs, truths = F.simulate_library(r, method=method, contigs=contigs, n_cells=2, n_sites=[2, 4, 8, 450][case['size']], umis_per_site=(1, 2),
+                                               copies=(1, 2), case_id=900 + case['cfg'], n_unmapped=[0, 1, 3, 3][case['size']],
+                                               p_invalid=0.1 if method == 'nla' else 0)
     expect = Counter()
     for rec in recs:
         expect[(F.id_from_name(rec['name']), 2 if rec['flag'] & 128 else 1)] += 1
+    if multi and not case.get('many_large') and recs:
+        # a decoy scaffold at the end of the header that holds nothing but supplementary alignments: it is scheduled (it has records) but no
+        # molecule comes out of it
+        donors = [x for x in recs if x.get('tid', -1) >= 0 and x.get('cigar')]
+        gen.refs.append(('chrUn_decoy', 6000))
+        for _ in range(3):
+            d0 = r.choice(donors)
+            recs.append(dict(d0, flag=(d0['flag'] | 2048) & ~2, tid=len(gen.refs) - 1, pos=r.randrange(0, 5000), tags=dict(d0['tags'])))
+        acc.count('layout:last_small_contig_holds_supplementary_records_only')
     acc.count('pipeline:multi' if multi else 'pipeline:single')
     for k in ('pipeline:multi', 'pipeline:single', 'fault:in_worker', 'clean:success', 'oracle:success_verified'):
         acc.count(k, 0)
-    cfg = {'method': method, 'multiprocess': multi, 'records': len(recs), 'contigs': contigs}
+    cfg = {'method': method, 'multiprocess': multi, 'records': len(recs), 'contigs': list(gen.refs)}
     with Scratch('c20') as dd:
         bam = write_bam(os.path.join(dd, 'in.bam'), gen.refs, recs)
         base = {'bam': bam, 'method': method, 'multiprocess': multi, 'threads': 2, 'temp': dd}
@@ -211,7 +246,7 @@ def run_case(case):
                 forced_stale.add(spec_)
         hung_budget = (1 if case['part'] == 0 else 0) if case['tier'] == 'quick' else 4
         if case.get('many_contigs'):
-            mine = [x for x in mine if x[1] in ('raise', 'kill')][:4]
+            mine = [x for x in mine if x[1] in ('raise', 'kill')][:2 if case.get('many_large') else 4]
             hung_budget = 0
         for (proc, stepname, occ, when), kind in mine:
             in_worker = proc != 'main'
